@@ -97,6 +97,24 @@ def originsCanonicalB {ρ : Type} [DecidableEq ρ] (g : Graph ν ω) (real : ω 
     | some oa, some ob => !(decide (real oa = real ob)) || decide (oa = ob)
     | _, _ => true
 
+/-- What C12 demands of the classification by isort section: `__future__` (FUTURE) and the STDLIB
+section are stdlib modules (ground truth: `sys.stdlib_module_names`), the other sections are not. -/
+def stdlibSection : Section → Bool
+  | .future => true
+  | .stdlib => true
+  | .thirdparty => false
+  | .firstparty => false
+  | .localfolder => false
+  | .other => false
+
+/-- The `inStdlib` verdicts of the graph are `is_in_stdlib` of the section isort places each name in
+(`sec` = `place_module`, supplied per case by the installed isort). -/
+def SectionsAgree (g : Graph ν ω) (sec : ν → Section) : Prop :=
+  ∀ m ∈ g, m.inStdlib = isInStdlib (sec m.name)
+
+instance (g : Graph ν ω) (sec : ν → Section) : Decidable (SectionsAgree g sec) := by
+  unfold SectionsAgree; infer_instance
+
 /-- Every module whose name matches an exclusion pattern is stopped by the ladder: it is blacklisted
 by `is_in_import_blacklist`, or it is a stdlib module and stdlib modules are not followed. -/
 def ExclusionHonoured (g : Graph ν ω) (fl : Flags) : Prop :=
